@@ -116,3 +116,27 @@ def linear_unsat_two_vars(cons, x, y):
                 b = math.floor(bound) + 1 if strict else math.ceil(bound)
                 lo = max(lo, b)
     return lo > hi
+
+
+def iter_order(expr, base_src, allow_slice=None):
+    """How *expr* enumerates the sequence written *base_src*:
+    'forward'  -- the sequence itself (or the allowed slice, or iter/list/tuple/enumerate-free wrappers of it)
+    'wrong'    -- positively not the documented order/extent: reversed, sorted, set, a slice, a filter
+    'unknown'  -- something the analyser does not relate to the sequence."""
+    s = A.src(expr)
+    if s == base_src or (allow_slice and s == allow_slice):
+        return "forward"
+    if isinstance(expr, ast.Call) and expr.args:
+        name = A.call_name(expr)
+        inner = iter_order(expr.args[0], base_src, allow_slice)
+        if name in ("iter", "list", "tuple") and len(expr.args) == 1:
+            return inner
+        if name in ("reversed", "sorted", "set", "frozenset") and inner != "unknown":
+            return "wrong"
+        if name in ("filter",) and len(expr.args) == 2 and iter_order(expr.args[1], base_src, allow_slice) != "unknown":
+            return "wrong"
+        if name in ("islice",) and inner != "unknown":
+            return "wrong"
+    if isinstance(expr, ast.Subscript) and A.src(expr.value) == base_src:
+        return "wrong"
+    return "unknown"
